@@ -127,6 +127,10 @@ def run(ctx):
     ctx.guarded("R16.1", "MediaType", lambda: media_type(ctx))
     ctx.guarded("R16.2", "StatusCode", lambda: status_table(ctx, "R16.2"))
     ctx.guarded("R16.3", "get_abs_path", lambda: abs_path(ctx))
+    ctx.rule("R16.4", "\"the URI itself\": the string get_abs_path reads is the URI as given -- Uri::new stores String::from(its argument), Uri::try_from passes the whole UTF-8 slice (= C02 R02.4)")
+    from .c06 import _Remap
+    from .c02 import uri
+    ctx.guarded("R16.4", "uri", lambda: uri(_Remap(ctx, "R16.4")))
 
 
 def media_type(ctx):
@@ -186,6 +190,19 @@ def abs_path(ctx):
         t = look(t)
         return t[0] == "field" and t[3] == "string" and look(t[1]) == ("arg", 1)
 
+    whole_bytes = whole     # look() sees through as_bytes()
+
+    def first_is_slash(t):
+        """the URI's first byte is '/': starts_with('/') on the string, starts_with(b"/") on its bytes, or bytes.first() == Some(&b'/')"""
+        if is_call(t, "starts_with"):
+            return (whole(t[2][0]) and const_of(t[2][1]) in (47, "/")) or (whole_bytes(t[2][0]) and const_of(t[2][1]) == b"/")
+        if is_call(t, "eq") and len(t[2]) == 2:
+            for a, b in ((t[2][0], t[2][1]), (t[2][1], t[2][0])):
+                x = look(a)
+                if is_call(x, "first") and whole_bytes(x[2][0]) and const_of(b) == ("Some&", 47):
+                    return True
+        return False
+
     def range_from(t):
         if t[0] == "agg" and t[1].startswith("std::ops::RangeFrom"):
             return t[3][0]
@@ -213,7 +230,7 @@ def abs_path(ctx):
             ctx.ob("R16.3", "value|%s" % lf.bb, v[1] == "", "returns the constant %r" % (v[1],), fn.loc(lf.bb))
             continue
         if whole(r):
-            ok = cond_holds(lf.conds, lambda t: is_call(t, "starts_with") and whole(t[2][0]) and const_of(t[2][1]) == 47)
+            ok = cond_holds(lf.conds, first_is_slash)
             ctx.ob("R16.3", "value|whole-uri", ok, "returns the whole URI only under starts_with('/')", fn.loc(lf.bb))
             continue
         if is_call(v, "index"):
@@ -222,7 +239,7 @@ def abs_path(ctx):
             why = "returns a slice"
 
             def has_scheme():
-                return cond_holds(lf.conds, lambda t: is_call(t, "starts_with") and whole(t[2][0]) and const_of(t[2][1]) == "http://")
+                return cond_holds(lf.conds, lambda t: is_call(t, "starts_with") and whole(t[2][0]) and const_of(t[2][1]) in ("http://", b"http://"))
 
             def after_scheme(b):
                 """b is the URI without its `http://` prefix: uri[7..] / uri[len("http://")..] under starts_with, or strip_prefix's payload."""
@@ -235,7 +252,7 @@ def abs_path(ctx):
                         plen = const_of(r2[2][0])
                     elif r2 is not None and r2[0] == "const":
                         plen = r2[1]
-                    return has_scheme() and (plen == "http://" or plen == 7)
+                    return has_scheme() and plen in ("http://", b"http://", 7)
                 src = payload_of(b)
                 return src is not None and is_call(src, "strip_prefix") and src[1].startswith("core::str::") and whole(src[2][0]) and const_of(src[2][1]) == "http://"
 
@@ -260,7 +277,7 @@ def abs_path(ctx):
                     from .util import as_sum
                     sm = as_sum(st)
                     if const_of(st) == 0:
-                        ok = cond_holds(lf.conds, lambda t: is_call(t, "starts_with") and whole(t[2][0]) and const_of(t[2][1]) == 47)
+                        ok = cond_holds(lf.conds, first_is_slash)
                         why = "returns uri[0..] under starts_with('/') (%s)" % ok
                     elif sm is not None:
                         for a_, p_ in (sm, (sm[1], sm[0])):
